@@ -755,6 +755,8 @@ class Explorer:
         self.samples = []
         self.exhausted = False
         self.bag = {}  # persists across paths: cross-path (existential) bookkeeping by harnesses
+        self.export_vcs = None  # list collecting (label, smt2) of symbolically decided assertions when enabled
+        self.export_cap = 0
         # per path
         self.prefix = []
         self.decisions = []
@@ -1020,6 +1022,12 @@ class Explorer:
             if self.pos < len(self.prefix):
                 return  # replay phase: decided valid when this prefix was first explored
             self.checks_symbolic += 1
+            if self.export_vcs is not None and len(self.export_vcs) < self.export_cap:
+                # verification condition (path condition /\ not assertion) as SMT-LIB2, for an independent solver
+                self.solver.push()
+                self.solver.add(z3.Not(z))
+                self.export_vcs.append((label, self.solver.to_smt2()))
+                self.solver.pop()
             r, m = self._sat_with(z3.Not(z))
             if r == z3.unsat:
                 self._add(z, keeps_model=True)
